@@ -1,6 +1,8 @@
 """C09 - call/N, once/1, findall/3, = and \\= agree with their standard definitions."""
-from ..terms import tt
+from ..terms import tt, show, canon, resolve, sto, unify as runify, Budget
+from ..runner import OK, DISCARD, FAIL
 from .. import gen
+from .. import impl
 from . import common as C
 
 V = lambda n: ('v', 'H%s' % n)   # noqa: E731
@@ -62,6 +64,141 @@ class C09(C.ProgramDiff):
             return ('f', 'ap', (g,) + extra)
         return ('f', 'do', (goal,))
 
+    # ------------------------------------------------------------------ = and \= on term pairs, against the reference unifier
+    EQ_TEXT = 'eq9(X, Y) :- X = Y.\nneq9(X, Y) :- X \\= Y.\nnu9(X, Y) :- \\+ X = Y.\nsame9(X, X).\n'
+
+    def extra_checks(self, tier, seed):
+        """pairs of terms from C02's generator (variants with repeated variables, clashing symbols and arities, partial
+        lists) under a stack of earlier, still open unifications: `=` and `\\=` called through the engine and through
+        compiled clauses must agree with the reference unifier"""
+        import hashlib
+        from . import c02
+        from ..gen import Src
+        runs = 1500 if tier == 'quick' else 40000
+        out = []
+        for r in range(runs):
+            data = hashlib.sha256(('%d/%d/eqneq' % (seed, r)).encode()).digest() * 6
+            case = c02.PROP.decode(Src(data))
+            case = {'stack': [[prolog_only(a), prolog_only(b)] for a, b in case['stack']], 't1': prolog_only(case['t1']),
+                    't2': prolog_only(case['t2']), 'eqneq': True}
+            o = self.decide(case)
+            out.append((case, o))
+            if o.status == 'fail':
+                break
+        return out
+
+    def sample_view(self, case):
+        if case.get('eqneq'):
+            return {'stack': ['%s = %s' % (show(tt(a)), show(tt(b))) for a, b in case['stack']],
+                    'pair': '%s , %s' % (show(tt(case['t1'])), show(tt(case['t2']))), 'goals': 'T1 = T2, T1 \\= T2, eq9, neq9, nu9'}
+        return super().sample_view(case)
+
+    def case_key(self, case):
+        if case.get('eqneq'):
+            return 'eqneq' + repr((case['stack'], case['t1'], case['t2']))
+        return super().case_key(case)
+
+    def shrink_candidates(self, case):
+        if case.get('eqneq'):
+            st = case['stack']
+            for i in range(len(st)):
+                yield dict(case, stack=st[:i] + st[i + 1:])
+            for key in ('t1', 't2'):
+                for t in C._smaller_terms(tt(case[key]), top=False):
+                    yield dict(case, **{key: t})
+            return
+        yield from super().shrink_candidates(case)
+
+    def decide(self, case):
+        if case.get('eqneq'):
+            try:
+                return self.decide_eqneq(case)
+            except Budget:
+                return DISCARD('term too large')
+        return super().decide(case)
+
+    def decide_eqneq(self, case):
+        from .c02 import POOL, E
+        from yldprolog.engine import unify
+        stack = [(tt(a), tt(b)) for a, b in case['stack']]
+        t1, t2 = tt(case['t1']), tt(case['t2'])
+        if any(x[0] in ('s', 'k') for x in C02_leaves(t1) + C02_leaves(t2) + [l for a, b in stack for l in C02_leaves(a) + C02_leaves(b)]):
+            return DISCARD('python constants are outside C09')
+        s = {}
+        kept = []
+        for a, b in stack:
+            if sto(a, b, s):
+                return DISCARD('STO in the stack')
+            s2 = runify(a, b, s, check_sto=False)
+            kept.append(s2 is not None)
+            if s2 is not None:
+                s = s2
+        if sto(t1, t2, s):
+            return DISCARD('STO pair')
+        s2 = runify(t1, t2, s, check_sto=False)
+        unifiable = s2 is not None
+        obs_terms = ('f', 'obs', tuple(POOL) + (t1, t2))
+        before_ref = canon(resolve(obs_terms, s, None, 3000))
+        at_ref = canon(resolve(obs_terms, s2, None, 3000)) if unifiable else None
+        detail = {'stack': ['%s = %s' % (show(a), show(b)) for a, b in stack], 'pair': '%s , %s' % (show(t1), show(t2)),
+                  'reference': 'unifiable' if unifiable else 'not unifiable'}
+        yp = impl.BudgetYP(20000)      # also resets the term-copy work counter
+        yp.load_script_from_string(impl.compile_text(self.EQ_TEXT))
+        vmap = {}
+        pool = [E(yp, v, vmap) for v in POOL]
+        gens = []
+        try:
+            for (a, b), k in zip(stack, kept):
+                g = iter(unify(E(yp, a, vmap), E(yp, b, vmap)))
+                try:
+                    next(g)
+                    gens.append(g)
+                except StopIteration:
+                    pass
+            e1, e2 = E(yp, t1, vmap), E(yp, t2, vmap)
+
+            def observe():
+                seen = {}
+                return ('f', 'obs', tuple(impl.reify(x, seen) for x in pool + [e1, e2]))
+            for goal, positive in (('=', True), ('\\=', False), ('eq9', True), ('neq9', False), ('nu9', False), ('same9', True)):
+                for swap in (False, True):
+                    detail['goal'] = '%s(%s)' % (goal, 'T2, T1' if swap else 'T1, T2')
+                    if observe() != before_ref:
+                        return FAIL('eqneq:state-before-differs', detail)
+                    g = yp.query(goal, [e2, e1] if swap else [e1, e2])
+                    n = 0
+                    for _ in g:
+                        n += 1
+                        o = observe()
+                        want = at_ref if positive else before_ref
+                        if o != want:
+                            detail['problem'] = 'at the answer: %s expected %s' % (show(o), show(want))
+                            return FAIL('eqneq:bindings-at-the-answer-differ', detail)
+                        if n > 1:
+                            break
+                    expect = 1 if (unifiable == positive) else 0
+                    if n != expect:
+                        detail['problem'] = '%d answers, expected %d' % (n, expect)
+                        return FAIL('eqneq:%s' % ('missing-answer' if n < expect else 'extra-answer'), detail)
+                    if observe() != before_ref:
+                        detail['problem'] = 'after the goal ended: %s expected %s' % (show(observe()), show(before_ref))
+                        return FAIL('eqneq:not-restored', detail)
+        except impl.ImplWork:
+            return DISCARD('term-copy work budget')
+        except RecursionError:
+            return FAIL('eqneq:exception:RecursionError', detail)
+        except Exception as e:     # noqa
+            detail['problem'] = '%s: %s' % (type(e).__name__, str(e)[:200])
+            return FAIL('eqneq:exception:' + impl.exc_signature(e), detail)
+        finally:
+            for g in reversed(gens):
+                g.close()
+        both_compound = t1[0] == 'f' and t2[0] == 'f' and t1 != t2
+        classes = ['eqneq:unifiable' if unifiable else 'eqneq:not-unifiable']
+        if both_compound:
+            classes.append('eqneq:both-compound')
+        return OK(both_compound, classes)
+
     def nontrivial(self, clauses, q, st, ref, it, feats, classes):
         if st != 'done':
             return False
@@ -72,6 +209,26 @@ class C09(C.ProgramDiff):
             classes.add(e)
         return bool(ev & {'meta-goal-from-variable', 'once-fails', 'findall-0', 'findall-many'}) or \
             (bool(ev & {'call/1', 'call/2', 'call/3'}) and len(ref) != 1)
+
+
+def prolog_only(t):
+    """C02's Python constants replaced by atoms and integers (C09 is about Prolog terms)"""
+    if t[0] == 'f':
+        return ('f', t[1], tuple(prolog_only(a) for a in t[2]))
+    if t[0] == 's':
+        return ('a', 'str%d' % len(t[1]))
+    if t[0] == 'k':
+        return ('i', 2 + len(t[1]))
+    return t
+
+
+def C02_leaves(t):
+    if t[0] == 'f':
+        out = []
+        for a in t[2]:
+            out += C02_leaves(a)
+        return out
+    return [t]
 
 
 PROP = C09()
